@@ -359,7 +359,7 @@ def shard_cli(sh):
     codes = {c: np.array(pipe.codes_sorted([r[j] for r in rows]), dtype=np.int32) for j, c in enumerate(header)}
     for r in ratios:
         cr = pipe.fresh_core_ranking()
-        tr.Pool = lambda n_: pipe.SyncPool()
+        tr.Pool = lambda *a_, **k_: pipe.SyncPool()
         tr.estimate_importances_minibatches = cr.estimate_importances_minibatches
         out_dir = os.path.join(sh.scratch, 'out-%s' % r)
         flags = {'task': 'ranking', 'data_path': dpath, 'data_source': 'csv-raw', 'output_folder': out_dir, 'subsampling': 1, 'heuristic': 'MI-numba-randomized',
